@@ -58,6 +58,12 @@ def special_sources():
     add('nan-while', "while x < (1e999-1e999) or y < (1e999-1e999):\n    x += 1\n")
     add('nan-reuse', "a = 1e999-1e999\nb = 1e999-1e999\nfor i in y:\n    c = (1e999-1e999) if i else (1e999-1e999)\n")
     add('nan-lambdas', "x = [lambda: 1e999-1e999, lambda: 1e999-1e999]\ntry:\n    g()\nfinally:\n    y = [lambda: 1e999-1e999, lambda: 1e999-1e999]\n")
+    # one name that is both a cell and a free variable of the same code object
+    add('class-cell-and-free', "class A:\n    def f(self):\n        class B:\n            x = __class__\n            def g(self):\n                return super()\n        return B\n")
+    add('class-cell-and-free-2', "class A:\n    def f(self):\n        class B(__class__):\n            def g(self):\n                return super().g(), __class__\n            y = [__class__ for _ in ()]\n        return B\n")
+    # equal code objects in different scopes of one line (CPython merges equal code objects only within one scope)
+    add('equal-code-across-scopes', "def f():\n    return (lambda: (lambda: 0)), (lambda: 0)\n")
+    add('equal-code-across-scopes-2', "d = {'lazy': lambda: (lambda: None), 'eager': lambda: None}\ne = [(lambda: (lambda: (lambda: 1))), (lambda: (lambda: 1)), (lambda: 1)]\n")
     add('nan-tuple', "a = (1e999-1e999, 1); b = (1e999-1e999, 1); c = -(1e999-1e999)\n")
     add('zeros', "a = 0.0; b = -0.0; c = 0; d = False; e = 0j; f = -0j; g = (0.0, -0.0); h = (-0.0, 0.0)\n")
     add('ones', "a = 1; b = 1.0; c = True; d = (1, 1.0, True); e = 1+0j\n")
